@@ -73,7 +73,7 @@ def handlePan (toks : List String) : Verdict := Id.run do
       let toksL := if opsS == "-" then [] else opsS.splitOn ","
       let ops := scriptToOps toksL
       let st := runBody Mode.debug { ms := ms0, verifs := [], panicked := false } ops
-      let e := scopeExit dropOrderSrc Generated.Layout.verifierChecksPanicking releaseOrderSrc st
+      let e := scopeExit2 dropOrderSrc Generated.Layout.verifierChecksPanicking Generated.Layout.injectorDropBody Generated.Layout.injectorFields st
       let mBody := if st.panicked then "1" else "0"
       let mExit := if st.panicked then "unwound" else (if e.newPanics > 0 then "panic" else "ok")
       let mExitPanics := toString e.newPanics
